@@ -100,7 +100,8 @@ pub fn child(args: &[String]) {
                 let mut s = st2.lock().unwrap();
                 s.applies += 1;
                 s.last_event = Instant::now();
-                ev.lock().unwrap().push(json!({"e": "apply"}));
+                // (the process-wide maximum level as it is once the new configuration is in place)
+                ev.lock().unwrap().push(json!({"e": "apply", "max": filter_num(log::max_level())}));
             }
             _ => {}
         }
